@@ -413,6 +413,93 @@ impl ReceiverLinkD {
 //@@ end
 }
 
+// ReceiverDisposer (link/receiver.rs): the detached settlement helper -- the same settlement logic as ReceiverLink::dispose, on the state it shares with the receiver (unit DISPOSER)
+pub struct AtomicU32S { pub v: u32 }
+pub enum Ordering { Release, Acquire, Relaxed, AcqRel, SeqCst }
+impl AtomicU32S {
+    pub fn fetch_add(&mut self, x: u32, o: Ordering) -> (r: u32)
+        ensures r == old(self).v, final(self).v == (if old(self).v as int + x as int >= 0x1_0000_0000 { (old(self).v as int + x as int - 0x1_0000_0000) as u32 } else { (old(self).v + x) as u32 }),
+    { let r = self.v; self.v = self.v.wrapping_add(x); r }
+}
+// ReceiverDisposer: the fields dispose touches (R11); refresh_credit_if_needed (unit LINKFLOW: the top-up decision) is a stand-in that records its argument
+pub struct ReceiverDisposerD {
+    pub rcv_settle_mode: ReceiverSettleMode,
+    pub unsettled: Option<OrderedMap<DeliveryTag, Option<DeliveryState>>>,
+    pub outgoing: ChanSender<LinkFrame>,
+    pub session_stop_reason: OnceCell<SessionStopReason>,
+    pub processed: AtomicU32S,
+    pub refreshed_with: Ghost<Seq<u32>>,
+}
+impl ReceiverDisposerD {
+    #[verifier::external_body]
+    pub fn refresh_credit_if_needed(&mut self, processed: u32) -> (r: Result<(), DispositionError>)
+        ensures final(self).refreshed_with@ == old(self).refreshed_with@.push(processed), final(self).unsettled == old(self).unsettled, final(self).rcv_settle_mode == old(self).rcv_settle_mode,
+            final(self).outgoing.failures == old(self).outgoing.failures,
+            forall|i: int| 0 <= i < old(self).outgoing.sent@.len() ==> final(self).outgoing.sent@.len() > i && final(self).outgoing.sent@[i] == old(self).outgoing.sent@[i],
+    { unimplemented!() }
+
+//@@ fn file=fe2o3-amqp/src/link/receiver.rs impl=`impl ReceiverDisposer` name=dispose id=disposer_dispose
+//@@ selfmut
+//@@ subst `let mut lock = self.unsettled.write();` => `let mut lock = &mut self.unsettled;` rule=R4
+//@@ subst `lock.as_mut() .and_then(|map| map.swap_remove(&delivery_info.delivery_tag))` => `opt_swap_remove(&mut *lock, &delivery_info.delivery_tag)` rule=R15
+//@@ subst `lock.as_mut() .and_then(|map| map.get_mut(&delivery_info.delivery_tag)) .map(|entry| entry.replace(state.clone()))` => `opt_replace_if_present(&mut *lock, &delivery_info.delivery_tag, Some(state.clone()))` rule=R15
+//@@ subst `.map_err(|_v0| __E1)` => `.map_err(|_v0: ChanSendError| -> (o: DispositionError) ensures o == disp_stop_err(self.session_stop_reason.val()) { __E1 })` rule=R18
+//@@ spec
+    requires old(self).processed.v < 0x8000_0000,
+    ensures
+        ({
+            let mode = if delivery_info.rcv_settle_mode is Some { delivery_info.rcv_settle_mode->Some_0 } else { old(self).rcv_settle_mode };
+            let will_settle = mode is First;                                                                              // [C02.receiver.settle-mode] (disposer) settle first => settled at once; settle second => NOT settled by the receiver
+            let m0 = omap(old(self).unsettled);
+            let m1 = omap(final(self).unsettled);
+            let known = m0.contains_key(delivery_info.delivery_tag);
+            let n0 = old(self).outgoing.sent@.len() as int;
+            &&& will_settle ==> m1 == m0.remove(delivery_info.delivery_tag)                                               // [C02.receiver.settled-forgets] (disposer) a settled delivery is forgotten: exactly its own entry
+            &&& !will_settle && known ==> m1 == m0.insert(delivery_info.delivery_tag, Some(state))                        // [C02.receiver.second-keeps-unsettled] (disposer)
+            &&& !will_settle && !known ==> m1 == m0                                                                       // [C02.receiver.settled-not-re-entered] (disposer)
+            &&& (known && r is Ok) ==> final(self).outgoing.sent@.len() > n0 && final(self).outgoing.sent@[n0] == LinkFrame::Disposition(Disposition {
+                    role: Role::Receiver, first: delivery_info.delivery_id, last: None, settled: will_settle, state: Some(state), batchable: false })   // [C02.receiver.disposition] (disposer) one disposition for this delivery's own id, carrying exactly the outcome the application applied
+            &&& (r is Ok ==> final(self).refreshed_with@ == old(self).refreshed_with@.push((old(self).processed.v + 1) as u32))   // [C09.disposer.counts-one-per-disposal] every disposal counts ONE towards the automatic top-up, whether or not the delivery was still unsettled
+        }),
+//@@ end
+
+//@@ fn file=fe2o3-amqp/src/link/receiver.rs impl=`impl ReceiverDisposer` name=accept id=disposer_accept
+//@@ selfmut
+//@@ param delivery_info : DeliveryInfo
+//@@ subst `let info = delivery_info.into();` => `let info = delivery_info;` rule=R16
+//@@ subst `DeliveryState::Accepted(Accepted {})` => `accepted_state()` rule=R11
+//@@ spec
+    requires old(self).processed.v < 0x8000_0000,
+    ensures
+        omap(old(self).unsettled).contains_key(delivery_info.delivery_tag) && r is Ok ==> ({
+            let n0 = old(self).outgoing.sent@.len() as int;
+            final(self).outgoing.sent@.len() > n0 && final(self).outgoing.sent@[n0] is Disposition && final(self).outgoing.sent@[n0]->Disposition_0.state == Some(accepted_state_spec())
+                && final(self).outgoing.sent@[n0]->Disposition_0.first == delivery_info.delivery_id
+        }),     // [C02.disposer-api.accept] the disposer's accept applies `accepted` to that delivery
+//@@ end
+
+//@@ fn file=fe2o3-amqp/src/link/receiver.rs impl=`impl ReceiverDisposer` name=release id=disposer_release
+//@@ selfmut
+//@@ param delivery_info : DeliveryInfo
+//@@ subst `let info = delivery_info.into();` => `let info = delivery_info;` rule=R16
+//@@ subst `DeliveryState::Released(Released {})` => `released_state()` rule=R11
+//@@ spec
+    requires old(self).processed.v < 0x8000_0000,
+    ensures
+        omap(old(self).unsettled).contains_key(delivery_info.delivery_tag) && r is Ok ==> ({
+            let n0 = old(self).outgoing.sent@.len() as int;
+            final(self).outgoing.sent@.len() > n0 && final(self).outgoing.sent@[n0] is Disposition && final(self).outgoing.sent@[n0]->Disposition_0.state == Some(released_state_spec())
+                && final(self).outgoing.sent@[n0]->Disposition_0.first == delivery_info.delivery_id
+        }),     // [C02.disposer-api.release]
+//@@ end
+}
+pub uninterp spec fn accepted_state_spec() -> DeliveryState;
+pub uninterp spec fn released_state_spec() -> DeliveryState;
+#[verifier::external_body]
+pub fn accepted_state() -> (r: DeliveryState) ensures r == accepted_state_spec() { unimplemented!() }
+#[verifier::external_body]
+pub fn released_state() -> (r: DeliveryState) ensures r == released_state_spec() { unimplemented!() }
+
 /// the settle decision of a run: the explicit `settled` argument, else the first delivery's own rcv-settle-mode, else the link's
 pub open spec fn run_will_settle(first: DeliveryInfo, settled: Option<bool>, link_mode: ReceiverSettleMode) -> bool {
     if settled is Some { settled->Some_0 } else { (if first.rcv_settle_mode is Some { first.rcv_settle_mode->Some_0 } else { link_mode }) is First }
